@@ -30,6 +30,15 @@ impl Driven for D {
          _ => panic!("verif harness: unknown relation {}", rel),
       }
    }
+   fn clear(&mut self, rel: &str) {
+      match rel {
+         "f_rn" => { self.0.f_rn = Default::default(); },
+         "e_rn" => { self.0.e_rn = Default::default(); },
+         "g_rn" => { self.0.g_rn = Default::default(); },
+         "h_rn" => { self.0.h_rn = Default::default(); },
+         _ => panic!("verif harness: unknown relation {}", rel),
+      }
+   }
    fn run(&mut self) { self.0.run(); }
    fn dump(&self) -> Value {
       let mut m: Vec<(String, Value)> = vec![];
